@@ -4,6 +4,7 @@ import (
 	"fmt"
 	"go/token"
 	"go/types"
+	"strings"
 
 	"golang.org/x/tools/go/ssa"
 )
@@ -382,63 +383,16 @@ func initialAndChunking(c *Ctx, rule string) {
 		}
 		c.Check(ok && n > 0, rule, "constructor state = initial receiver state", p.Pos(nr.Pos()), "clean state, no running status, clock 0, buffer size >= 1", why)
 	}
-	// EachMessage: one add of the delta to the clock before the loop; step called once per iteration with (receiver, element)
+	// EachMessage, decided on an abstract run with the step function observed (not interpreted): for a chunk of three
+	// arbitrary bytes and any delta the clock is advanced by the delta exactly once, before the first step, and the step
+	// is applied to byte 0, 1, 2 in that order and nothing else happens to the decoder; for an empty chunk only the clock
+	// moves. A fast path, a second clock update, a skipped or reordered byte all show up as a different call sequence.
 	{
-		okAdd := 0
-		for _, f := range p.Reachable(em) {
-			if f == step {
-				continue
-			}
-			reach := false
-			for _, g := range p.Reachable(f) {
-				if g == step {
-					reach = true
-				}
-			}
-			if reach && f != em {
-				continue
-			}
-			for _, b := range f.Blocks {
-				for _, in := range b.Instrs {
-					if st, ok := in.(*ssa.Store); ok {
-						if fv := fieldVar(st.Addr); p.isRoleField(fv, "drivers.Reader", "ts_ms") {
-							if add, ok := st.Val.(*ssa.BinOp); ok && add.Op.String() == "+" {
-								okAdd++
-							}
-						}
-					}
-				}
-			}
-		}
-		nCalls, inLoop := 0, false
-		for _, call := range calls(em) {
-			if call.Common().StaticCallee() == step {
-				nCalls++
-				for _, l := range naturalLoops(em) {
-					if l.Body[call.Block()] && classifyLoop(em, l, nil) != "" {
-						inLoop = true
-					}
-				}
-				// second argument: the ranged element
-			}
-		}
-		// the step reads no package-level state
-		globals := 0
-		for _, f := range p.Reachable(step) {
-			for _, b := range f.Blocks {
-				for _, in := range b.Instrs {
-					for _, op := range in.Operands(nil) {
-						if g, ok := (*op).(*ssa.Global); ok && g.Pkg != nil && g.Pkg.Pkg.Path() == modPath+"/drivers" && !p.immutableGlobal(g) {
-							globals++
-						}
-					}
-				}
-			}
-		}
-		// the clock after EachMessage(empty chunk, delta) is clock + delta (abstract interpretation; catches a second update)
-		{
-			rT := p.namedType("drivers", "Reader")
+		rT := p.namedType("drivers", "Reader")
+		ok, why, nOut := true, "", 0
+		for _, nbytes := range []int{3, 0} {
 			ex := NewExec(p)
+			ex.Unroll = 8
 			st := ex.NewState()
 			rp := ex.newZeroObject(st, rT)
 			now := mkSym(ex.syms.Get("now", 32, true))
@@ -446,76 +400,104 @@ func initialAndChunking(c *Ctx, rule string) {
 			dl := mkSym(ex.syms.Get("delta", 32, true))
 			st.refineSym(dl.T.Syms[0], 0, 1<<29)
 			ex.setField(st, rp, "ts_ms", now)
-			empty := ex.mkBytes(st, "chunk", nil, false, 0)
-			for _, o := range ex.Call(st, em, []Val{rp, empty, dl}, nil) {
-				v, _ := ex.getField(o.St, rp, "ts_ms")
-				iv, _ := v.(*IntV)
-				if o.Panic || iv == nil || !o.St.sameInt(iv, o.St.Arith(token.ADD, now, dl, "")) {
-					okAdd = -1
-				}
+			var bs []Val
+			for i := 0; i < nbytes; i++ {
+				bs = append(bs, ex.byteSym(fmt.Sprintf("b%d", i)))
 			}
-		}
-		// EachMessage itself is nothing but: clock update; for each byte: step. Any other effect or any branch that is not
-		// the loop condition (a "fast path") would bypass the simulated step function.
-		extra := ""
-		nIf := 0
-		for _, b := range em.Blocks {
-			for _, in := range b.Instrs {
-				switch x := in.(type) {
-				case *ssa.If:
-					nIf++
-				case *ssa.Store:
-					if _, local := x.Addr.(*ssa.Alloc); !local {
-						if fv := fieldVar(x.Addr); !p.isRoleField(fv, "drivers.Reader", "ts_ms") {
-							extra = "EachMessage stores to decoder state outside the step function"
-						}
+			chunk := ex.mkBytes(st, "chunk", bs, false, 0)
+			ex.CallHook = func(ex *Exec, st *State, fr *Frame, call ssa.CallInstruction, callee *ssa.Function, args []Val) ([]callRes, bool) {
+				if callee != step {
+					return nil, false
+				}
+				clk, _ := ex.getField(st, rp, "ts_ms")
+				ev := Event{Kind: "sim:step", Pos: ex.pos(call)}
+				if len(args) >= 2 {
+					ev.Args = []Val{args[len(args)-1], clk}
+					if pv, isP := args[0].(*PtrV); !isP || pv.Obj != rp.Obj {
+						ev.Msg = "step applied to another decoder object"
 					}
-				case *ssa.Go, *ssa.Defer, *ssa.MakeClosure, *ssa.Send:
-					extra = "EachMessage starts goroutines / closures"
-				case *ssa.Call:
-					cal := x.Common().StaticCallee()
-					if _, isB := x.Common().Value.(*ssa.Builtin); isB {
-						continue
+				}
+				st.Events = append(st.Events, ev)
+				return []callRes{{st: st}}, true
+			}
+			var initFields []Val
+			if sv, isS := st.heap[rp.Obj].(*StructV); isS {
+				initFields = append([]Val{}, sv.Fields...)
+			}
+			outs := ex.Call(st, em, []Val{rp, chunk, dl}, nil)
+			if ex.Budget || len(outs) == 0 {
+				ok, why = false, "abstract interpretation of EachMessage did not complete"
+				continue
+			}
+			for u := range ex.Unsupported {
+				ok, why = false, "unmodelled construct in EachMessage: "+u
+			}
+			want := st.Arith(token.ADD, now, dl, "")
+			for _, o := range outs {
+				nOut++
+				if o.Panic || len(problemEvents(o.St.Events)) > 0 {
+					ok, why = false, "EachMessage may panic: "+o.Msg+fmtEvents(problemEvents(o.St.Events))
+					continue
+				}
+				var steps []Event
+				for _, e := range o.St.Events {
+					if e.Kind == "sim:step" {
+						steps = append(steps, e)
+					} else if strings.HasPrefix(e.Kind, "call:") && !strings.HasPrefix(e.Kind, "call:opaque runtime.") {
+						ok, why = false, "EachMessage does something besides the clock update and the per-byte step: "+e.Kind+" (e.g. delivers a message on a fast path) ["+outcomeWitness(o)+"]"
 					}
-					if cal == step {
-						continue
+				}
+				if len(steps) != nbytes {
+					ok, why = false, fmt.Sprintf("a chunk of %d bytes leads to %d applications of the step function [%s]: a byte is skipped or handled outside the step (chunking independence rests on one step per byte)", nbytes, len(steps), outcomeWitness(o))
+					continue
+				}
+				for i, e := range steps {
+					if e.Msg != "" {
+						ok, why = false, e.Msg
 					}
-					if cal != nil && InModule(cal) {
-						// allowed: a helper whose only effect is the clock update
-						onlyClock := true
-						for _, g := range p.Reachable(cal) {
-							for _, gb := range g.Blocks {
-								for _, gi := range gb.Instrs {
-									switch y := gi.(type) {
-									case *ssa.Store:
-										if _, local := y.Addr.(*ssa.Alloc); !local {
-											if fv := fieldVar(y.Addr); !p.isRoleField(fv, "drivers.Reader", "ts_ms") {
-												onlyClock = false
-											}
-										}
-									case *ssa.Call:
-										if _, isB := y.Common().Value.(*ssa.Builtin); !isB && y.Common().StaticCallee() == nil {
-											onlyClock = false
-										}
-									}
-								}
-							}
-						}
-						if onlyClock {
+					bv, _ := e.Args[0].(*IntV)
+					if bv == nil || !o.St.sameInt(bv, bs[i].(*IntV)) {
+						ok, why = false, fmt.Sprintf("step no. %d is applied to %s, expected byte %d of the chunk", i, valString(e.Args[0]), i)
+					}
+					cv, _ := e.Args[1].(*IntV)
+					if cv == nil || !o.St.sameInt(cv, want) {
+						ok, why = false, fmt.Sprintf("at step no. %d the clock is %s, expected clock + delta (added once, before the first byte)", i, valString(e.Args[1]))
+					}
+				}
+				fin, _ := ex.getField(o.St, rp, "ts_ms")
+				if fv, _ := fin.(*IntV); fv == nil || !o.St.sameInt(fv, want) {
+					ok, why = false, "after EachMessage the clock is "+valString(fin)+", expected clock + delta (the delta is added exactly once)"
+				}
+				// nothing else in the decoder moves (the step is only observed here)
+				if sv, isS := o.St.heap[rp.Obj].(*StructV); isS && initFields != nil {
+					for i := 0; i < sv.T.NumFields(); i++ {
+						if p.isRoleField(sv.T.Field(i), "drivers.Reader", "ts_ms") {
 							continue
 						}
+						if sv.Fields[i] != initFields[i] && !o.St.sameVal(sv.Fields[i], initFields[i]) {
+							ok, why = false, "EachMessage itself changes the decoder field "+sv.T.Field(i).Name()+" (state outside the step function)"
+						}
 					}
-					extra = "EachMessage calls something other than the clock update and the step function (e.g. delivers a message on a fast path): " + callName(x)
 				}
 			}
 		}
-		if nIf > len(naturalLoops(em)) {
-			extra = fmt.Sprintf("EachMessage has %d branches but only %d loops: a special case outside the byte-wise step breaks chunking independence", nIf, len(naturalLoops(em)))
+		// the step reads no mutable package-level state
+		globals := 0
+		for _, f := range p.Reachable(step) {
+			for _, b := range f.Blocks {
+				for _, in := range b.Instrs {
+					for _, op := range in.Operands(nil) {
+						if g, isG := (*op).(*ssa.Global); isG && g.Pkg != nil && g.Pkg.Pkg.Path() == modPath+"/drivers" && !p.immutableGlobal(g) {
+							globals++
+						}
+					}
+				}
+			}
 		}
-		if extra != "" {
-			okAdd = -2
+		if globals > 0 {
+			ok, why = false, fmt.Sprintf("the step function touches mutable package-level state (%d uses): its only inputs must be the decoder and the byte", globals)
 		}
-		c.Check(okAdd == 1 && nCalls == 1 && inLoop && globals == 0, rule, "EachMessage: delta once, step per byte, no other state", p.Pos(em.Pos()), "one clock update, one step call inside a counted range loop over the chunk, the step touches no package-level state", fmt.Sprintf("clock updates=%d step calls=%d inside counted loop=%v package-level state touched=%d %s", okAdd, nCalls, inLoop, globals, extra))
+		c.Check(ok && nOut > 0, rule, "EachMessage: delta once, step per byte, no other state", p.Pos(em.Pos()), "abstract run on a chunk of three arbitrary bytes and on the empty chunk: clock + delta before the first byte, one step per byte in order, nothing else; the step touches no mutable package-level state", why)
 	}
 }
 
